@@ -27,9 +27,12 @@ import common
 RULE = ("cases = (method, plan, dialogue cut, fault schedule, pre-existing foreign configuration): plans vary the "
         "families present, DNS servers, excludes/port ranges, user/group, udp, resolvectl; every plan is run "
         "fault-free, cut after every line and inside lines, with STARTED unwritable, with every single k-th "
-        "external command failing (k over the whole run, learnt from the fault-free run) -- once with a non-zero "
-        "exit status and once by OSError EAGAIN/ENOENT raised at the subprocess boundary (the process cannot be "
-        "spawned) --, with foreign chains/"
+        "external command failing (k over the whole run, learnt from the fault-free run) -- with the exit statuses the "
+        "real tools produce (iptables/ip6tables 1, 2, 3, 4; nft and pfctl 1; natural failures answer 1/2/4 as iptables "
+        "1.8 does) and by OSError EAGAIN/ENOENT raised at the subprocess boundary (the process cannot be spawned); what "
+        "is left after a failing command must not depend on which non-zero status it returned --, on a machine where "
+        "every `-m owner` command fails persistently (status 2/4: --user/--group without the owner match; the next "
+        "session on the port must still start), with foreign chains/"
         "rules (some carrying non-ASCII UTF-8 comments, which every `-nL` listing read by ipt_chain_exists then shows) "
         "and a second instance on another port present before or arriving during the session, also combined with "
         "tear-down faults; the helper's log streams (sys.stderr / sys.stdout behind the real helpers.log) failing "
@@ -135,6 +138,7 @@ class PyEnv:
         self.faults = set()
         self.spawn_faults = {}   # command index -> errno name: the process cannot be started at all
         self.fault_status = {}   # command index -> exit status of the injected failure (default 1)
+        self.env_fail = []       # [(argv token, status)]: every command carrying the token fails (missing extension)
         self.log = []
 
     # ---- parsing
@@ -381,6 +385,10 @@ class PyEnv:
             if idx in self.faults:
                 self.log.append((list(argv), False))
                 return int(self.fault_status.get(idx, 1)), '', ''
+            for tok, st in self.env_fail:
+                if tok in argv:
+                    self.log.append((list(argv), False))
+                    return int(st), '', ''
         rc_fail = self.natural_status(c)
         ok, out, err = self.apply(c)
         if not foreign:
@@ -938,7 +946,7 @@ class Case:
 
     def __init__(self, method, chunks, faults=(), prelude=(), resolvectl=False, started_fails=False,
                  pfinit=None, second=None, ports=(), pfrules=None, spawn=None, io=None, fd_budget=None,
-                 status=None):
+                 status=None, env_fail=None):
         self.method = method
         self.chunks = [c if isinstance(c, bytes) else c.encode('ASCII') for c in chunks]
         self.faults = sorted(faults)
@@ -955,6 +963,10 @@ class Case:
         # {command index: exit status} of the injected failures in `faults` (default 1): iptables/ip6tables use
         # 1 (no such rule/chain), 2 (usage, missing extension), 3 (version), 4 (kernel / resource / lock)
         self.status = dict((int(k), int(v)) for k, v in (status or {}).items())
+        # [(argv token, status)]: a property of the machine, not a fault at an index: every command that
+        # carries the token fails with that status for the whole session and for later sessions (e.g. a
+        # kernel without the owner match: `-m owner` makes iptables exit 2)
+        self.env_fail = [(str(t), int(st)) for t, st in (env_fail or [])]
         self.fd_budget = fd_budget               # descriptors the helper may still open (pf cases)
 
     def fault_indices(self):
@@ -965,13 +977,15 @@ class Case:
                     prelude=self.prelude, resolvectl=self.resolvectl, started_fails=self.started_fails,
                     pfinit=self.pfinit, second=self.second, ports=self.ports,
                     spawn=dict((str(k), v) for k, v in sorted(self.spawn.items())), io=self.io,
-                    fd_budget=self.fd_budget, status=dict((str(k), v) for k, v in sorted(self.status.items())))
+                    fd_budget=self.fd_budget, status=dict((str(k), v) for k, v in sorted(self.status.items())),
+                    env_fail=[list(x) for x in self.env_fail])
 
     @staticmethod
     def from_json(d):
         return Case(d['method'], d['dialogue'], d.get('faults', ()), d.get('prelude', ()), d.get('resolvectl', False),
                     d.get('started_fails', False), d.get('pfinit'), d.get('second'), d.get('ports', ()),
-                    spawn=d.get('spawn'), io=d.get('io'), fd_budget=d.get('fd_budget'), status=d.get('status'))
+                    spawn=d.get('spawn'), io=d.get('io'), fd_budget=d.get('fd_budget'), status=d.get('status'),
+                    env_fail=d.get('env_fail'))
 
 
 def second_instance(box, method, q, action):
@@ -1002,6 +1016,8 @@ class Outcome:
 
 def execute(box, case, lean=None, faults=None):
     """Run the real main for `case`.  Returns an Outcome with the states as PyEnv text."""
+    if case.env_fail:
+        lean = None          # a machine whose commands fail persistently exists in PyEnv only
     py = PyEnv(case.pfinit)
     router = Router(py, lean)
     box.router = router
@@ -1027,6 +1043,7 @@ def execute(box, case, lean=None, faults=None):
     py.faults = set(case.faults if faults is None else faults)
     py.spawn_faults = dict(case.spawn)
     py.fault_status = dict(case.status)
+    py.env_fail = list(case.env_fail)
     py.count = 0
     py.log = []
     if lean is not None:
@@ -1170,6 +1187,8 @@ def check_oracle(ctx, box, case, o, full_ncmd=None):
         if o.final != o.expected_final:
             if m.startswith('pf'):
                 key = 'C04:pf:main-ruleset-or-module-not-restored'
+            elif case.env_fail:
+                key = 'C04:%s:persistent-command-failure:not-undone' % m
             elif case.io:
                 key = 'C04:%s:log-stream-fails:not-undone' % m
             elif m == 'tproxy' and setup_fault and not case.spawn:
@@ -1183,6 +1202,15 @@ def check_oracle(ctx, box, case, o, full_ncmd=None):
             else:
                 key = 'C04:%s:session-not-identity' % m
             bad.append((key, o.expected_final, o.final, 'configuration after the session differs from before'))
+        if case.env_fail and not fi and hasattr(case, 'full_chunks'):
+            # the same machine later: a session on the same port must still be able to start and end clean
+            ex, started, before, after = later_session(box, case, o.py)
+            if not started or after != o.expected_final:
+                bad.append(('C04:%s:persistent-command-failure:port-unusable' % m,
+                            'later session reaches STARTED and ends in the initial configuration',
+                            'exit=%s started=%s%s' % (ex, started, '' if after == o.expected_final else
+                                                      ', configuration differs afterwards'),
+                            'commands carrying %s fail persistently' % (case.env_fail,)))
     else:
         if o.foreign1 != o.foreign0:
             bad.append(('C04:%s:teardown-%s:foreign-touched' % (m, tag), o.foreign0, o.foreign1,
@@ -1307,9 +1335,9 @@ def cuts_of(lines):
 
 
 def mk_case(plan, chunks, faults=(), prelude=(), started_fails=False, second=None, pfinit=None, spawn=None,
-            io=None, status=None):
+            io=None, status=None, env_fail=None):
     c = Case(plan.method, chunks, faults, prelude, plan.resolvectl, started_fails, pfinit, second,
-             ports=sorted(set([plan.p6, plan.p4])), spawn=spawn, io=io, status=status)
+             ports=sorted(set([plan.p6, plan.p4])), spawn=spawn, io=io, status=status, env_fail=env_fail)
     c.full_chunks = [l.encode('ASCII') for l in plan.lines() if l.strip() not in ('FROBNICATE', 'HOST nocomma', '')]
     fam_has_subnets = {'v6': any(r[0] == 10 for r in plan.routes), 'v4': any(r[0] == 2 for r in plan.routes)}
     c.fam_has_subnets = fam_has_subnets
@@ -1399,9 +1427,9 @@ def run_plan(ctx, box, lean, plan, budget, with_io=False):
             do(mk_case(plan, lines, faults=[k], status={k: st}))
     # a kernel without the owner match: every command that uses `-m owner` (the mangle MARK rule of a
     # --user/--group session, at set-up and at tear-down) exits with status 2
-    owner_ks = [k for k in range(o0.ncmd) if 'owner' in o0.log[k][0]]
-    if owner_ks:
-        do(mk_case(plan, lines, faults=owner_ks, status=dict((k, 2) for k in owner_ks)))
+    if any('owner' in argv for argv, _ok in o0.log):
+        for st in ((2, 4, 1, 3) if ctx.thorough else (2, 4)):
+            do(mk_case(plan, lines, env_fail=[('owner', st)]))
     # every k-th command cannot be spawned at all: OSError (EAGAIN from fork / ENOENT from exec) raised at
     # the subprocess boundary instead of an exit status -- set-up and tear-down, both families
     for k in ks:
@@ -1454,10 +1482,30 @@ def run_plan(ctx, box, lean, plan, budget, with_io=False):
             ctx.hist('no-command-issued')
         for key, exp, obs, note in bad:
             report(ctx, case, key, exp, obs, note, o)
-        if not (case.second and case.second['when'].startswith('during')) and not case.spawn:
+        if not (case.second and case.second['when'].startswith('during')) and not case.spawn and not case.env_fail:
             # (a command that cannot be spawned is outside the code model: those cases are decided by the
             # oracle on the real code, with PyEnv and the Lean Env still cross-checked command by command)
             compare_model(ctx, lean, case, body, o)
+    # what is undone after a failing command must not depend on WHICH non-zero status the command returned
+    plain = {}
+    for case, o in cases:
+        if len(case.faults) == 1 and not (case.status or case.spawn or case.io or case.prelude or case.second
+                                          or case.env_fail or case.started_fails) and case.chunks == full.chunks:
+            plain[case.faults[0]] = o
+    for case, o in cases:
+        if len(case.faults) == 1 and case.status and not (case.spawn or case.io or case.prelude or case.second
+                                                          or case.env_fail) and case.faults[0] in plain:
+            o1 = plain[case.faults[0]]
+            if o.final != o1.final:
+                ctx.violation('C04:%s:cleanup-depends-on-exit-status' % plan.method,
+                              case=dict(case.to_json(), compare_with_status=1),
+                              expected='the same configuration as when the command fails with status 1: '
+                                       + (' || '.join(o1.final_pretty) or '(builtin chains only)'),
+                              observed='status %d leaves: %s' % (list(case.status.values())[0],
+                                                                ' || '.join(o.final_pretty) or '(builtin chains only)'),
+                              note='command %d (%s) fails; exit=%s vs %s' % (
+                                  case.faults[0], ' '.join(o1.log[case.faults[0]][0]), o.exit, o1.exit),
+                              kind='faults')
     return cases
 
 
@@ -1967,6 +2015,12 @@ def replay(ctx, rep):
         case.full_chunks = [c for c in plan_lines if c.endswith(b'\n') and
                             c.strip() not in (b'FROBNICATE', b'HOST nocomma', b'')]
         o = execute(box, case, None)
+        if rep['case'].get('compare_with_status') is not None:
+            twin = Case.from_json(dict(rep['case'], status={}))
+            o1 = execute(box, twin, None)
+            return o.final != o1.final, 'status %s leaves: %s; status 1 leaves: %s' % (
+                sorted(case.status.values()), ' || '.join(o.final_pretty) or '(builtin chains only)',
+                ' || '.join(o1.final_pretty) or '(builtin chains only)')
         bad, phase = check_oracle(ctx, box, case, o)
         info = 'exit=%s commands=%d fault-phase=%s; before: %s; after: %s' % (
             o.exit, o.ncmd, phase, ' || '.join(o.s0_pretty) or '(builtin chains only)',
